@@ -20,28 +20,33 @@ import (
 type Harness struct {
 	Name    string   `json:"name"`
 	N       int      `json:"seats"`
-	Prefix  []string `json:"prefix"`  // sequential operations that build the initial map
-	Threads [][]Op   `json:"threads"` // operations of each thread
+	Prefix  []string `json:"prefix"`                              // sequential operations that build the initial map
+	Threads [][]Op   `json:"threads"`                             // operations of each thread
+	Other   [][]Op   `json:"threads_on_a_second_table,omitempty"` // threads working on a second, independent seat manager of the same size
 }
 
 func Harnesses(tier string) []Harness {
 	j := func(k int) Op { return Op{"Join", k} }
 	hs := []Harness{
-		{"2-joins-same-seat", 3, nil, [][]Op{{j(0)}, {j(0)}}},
-		{"3-joins-same-seat", 3, nil, [][]Op{{j(0)}, {j(0)}, {j(0)}}},
-		{"2-joins-any-2-free", 2, nil, [][]Op{{j(-1)}, {j(-1)}}},
-		{"2-joins-any-1-free", 2, []string{"Join(0)"}, [][]Op{{j(-1)}, {j(-1)}}},
-		{"3-joins-any-2-free", 3, []string{"Join(0)"}, [][]Op{{j(-1)}, {j(-1)}, {j(-1)}}},
-		{"leave-and-2-joins", 3, []string{"Join(0)", "Seat(0)"}, [][]Op{{{"Leave", 0}}, {j(0)}, {j(0)}}},
-		{"crossed-joins", 3, nil, [][]Op{{j(0), j(1)}, {j(1), j(0)}}},
-		{"after-next-1-inactive-free", 3, []string{"Join(0)", "Seat(0)", "Join(2)", "Seat(2)", "Next"}, [][]Op{{j(-1)}, {j(-1)}}},
-		{"join-any-vs-specific", 3, []string{"Join(2)"}, [][]Op{{j(-1)}, {j(0)}, {j(1)}}},
+		{Name: "2-joins-same-seat", N: 3, Threads: [][]Op{{j(0)}, {j(0)}}},
+		{Name: "3-joins-same-seat", N: 3, Threads: [][]Op{{j(0)}, {j(0)}, {j(0)}}},
+		{Name: "2-joins-any-2-free", N: 2, Threads: [][]Op{{j(-1)}, {j(-1)}}},
+		{Name: "2-joins-any-1-free", N: 2, Prefix: []string{"Join(0)"}, Threads: [][]Op{{j(-1)}, {j(-1)}}},
+		{Name: "3-joins-any-2-free", N: 3, Prefix: []string{"Join(0)"}, Threads: [][]Op{{j(-1)}, {j(-1)}, {j(-1)}}},
+		{Name: "leave-and-2-joins", N: 3, Prefix: []string{"Join(0)", "Seat(0)"}, Threads: [][]Op{{{"Leave", 0}}, {j(0)}, {j(0)}}},
+		{Name: "crossed-joins", N: 3, Threads: [][]Op{{j(0), j(1)}, {j(1), j(0)}}},
+		{Name: "after-next-1-inactive-free", N: 3, Prefix: []string{"Join(0)", "Seat(0)", "Join(2)", "Seat(2)", "Next"}, Threads: [][]Op{{j(-1)}, {j(-1)}}},
+		{Name: "join-any-vs-specific", N: 3, Prefix: []string{"Join(2)"}, Threads: [][]Op{{j(-1)}, {j(0)}, {j(1)}}},
+		// two tables of one process, each with its own lock: nothing may couple them
+		{Name: "two-tables-join-any", N: 2, Threads: [][]Op{{j(-1), j(-1)}}, Other: [][]Op{{j(-1), j(-1)}}},
+		{Name: "two-tables-2-joins-each", N: 2, Prefix: []string{"Join(0)"}, Threads: [][]Op{{j(-1)}, {j(1)}}, Other: [][]Op{{j(-1)}}},
 	}
 	if tier == "thorough" {
 		hs = append(hs,
-			Harness{"4-joins-same-seat", 3, nil, [][]Op{{j(0)}, {j(0)}, {j(0)}, {j(0)}}},
-			Harness{"4-joins-any-3-free", 4, []string{"Join(1)"}, [][]Op{{j(-1)}, {j(-1)}, {j(-1)}, {j(-1)}}},
-			Harness{"joins-during-next", 3, []string{"Join(0)", "Seat(0)", "Join(1)", "Seat(1)"}, [][]Op{{{Kind: "Next"}}, {j(2)}, {j(-1)}}},
+			Harness{Name: "4-joins-same-seat", N: 3, Threads: [][]Op{{j(0)}, {j(0)}, {j(0)}, {j(0)}}},
+			Harness{Name: "4-joins-any-3-free", N: 4, Prefix: []string{"Join(1)"}, Threads: [][]Op{{j(-1)}, {j(-1)}, {j(-1)}, {j(-1)}}},
+			Harness{Name: "joins-during-next", N: 3, Prefix: []string{"Join(0)", "Seat(0)", "Join(1)", "Seat(1)"}, Threads: [][]Op{{{Kind: "Next"}}, {j(2)}, {j(-1)}}},
+			Harness{Name: "two-tables-2-joins-any-each", N: 3, Prefix: []string{"Join(0)"}, Threads: [][]Op{{j(-1)}, {j(-1)}}, Other: [][]Op{{j(-1)}, {j(-1)}}},
 		)
 	}
 	return hs
@@ -55,21 +60,34 @@ type tres struct {
 
 // runOnce executes the harness under one schedule and returns an outcome string and a violation (sig,msg) if any.
 func (h *Harness) runOnce(ch *vrt.Chooser) (outcome, sig, msg string) {
-	m := sm.NewSeatManager(h.N)
-	for _, l := range h.Prefix {
-		op, _, err := parseStep(l)
-		if err != nil {
-			panic(err)
+	build := func() *sm.SeatManager {
+		m := sm.NewSeatManager(h.N)
+		for _, l := range h.Prefix {
+			op, _, err := parseStep(l)
+			if err != nil {
+				panic(err)
+			}
+			if o := Apply(m, op); o.Panic != "" {
+				panic("harness prefix panics: " + o.Panic)
+			}
 		}
-		if o := Apply(m, op); o.Panic != "" {
-			panic("harness prefix panics: " + o.Panic)
-		}
+		return m
 	}
+	m := build()
 	initOcc := m.GetPlayerCount()
-	results := make([][]tres, len(h.Threads))
+	all := append(append([][]Op{}, h.Threads...), h.Other...)
+	var m2 *sm.SeatManager
+	if len(h.Other) > 0 {
+		m2 = build()
+	}
+	results := make([][]tres, len(all))
 	var fns []func()
-	for ti, ops := range h.Threads {
+	for ti, ops := range all {
 		ti, ops := ti, ops
+		m := m
+		if ti >= len(h.Threads) {
+			m = m2
+		}
 		results[ti] = make([]tres, len(ops))
 		fns = append(fns, func() {
 			for oi, op := range ops {
@@ -113,23 +131,37 @@ func (h *Harness) runOnce(ch *vrt.Chooser) (outcome, sig, msg string) {
 			return outcome, "panic", fmt.Sprintf("thread %d panics: %s", ti, firstLine(p))
 		}
 	}
+	if sig, msg := h.judge(m, 0, h.Threads, results[:len(h.Threads)], initOcc); sig != "" {
+		return outcome, sig, msg
+	}
+	if m2 != nil {
+		if sig, msg := h.judge(m2, len(h.Threads), h.Other, results[len(h.Threads):], initOcc); sig != "" {
+			return outcome, sig, "second table: " + msg
+		}
+	}
+	return outcome, "", ""
+}
+
+// judge is the end-of-schedule oracle for one seat manager and the threads that worked on it
+// (tiBase: index of its first thread, for the player tokens).
+func (h *Harness) judge(m *sm.SeatManager, tiBase int, threads [][]Op, results [][]tres, initOcc int) (sig, msg string) {
 	bySeat := map[int]string{}
 	joins, leaves := 0, 0
 	for ti := range results {
 		for oi, r := range results[ti] {
-			op := h.Threads[ti][oi]
+			op := threads[ti][oi]
 			if !r.OK {
 				continue
 			}
 			switch op.Kind {
 			case "Join":
 				joins++
-				tok := fmt.Sprintf("t%d.%d", ti, oi)
+				tok := fmt.Sprintf("t%d.%d", tiBase+ti, oi)
 				if r.Seat < 0 || r.Seat >= h.N {
-					return outcome, "join-bad-seat", fmt.Sprintf("%s was given seat %d", tok, r.Seat)
+					return "join-bad-seat", fmt.Sprintf("%s was given seat %d", tok, r.Seat)
 				}
 				if other, dup := bySeat[r.Seat]; dup {
-					return outcome, "two-players-one-seat", fmt.Sprintf("joins %s and %s were both given seat %d", other, tok, r.Seat)
+					return "two-players-one-seat", fmt.Sprintf("joins %s and %s were both given seat %d", other, tok, r.Seat)
 				}
 				bySeat[r.Seat] = tok
 			case "Leave":
@@ -144,13 +176,13 @@ func (h *Harness) runOnce(ch *vrt.Chooser) (outcome, sig, msg string) {
 			if s != nil {
 				got = s.Player
 			}
-			return outcome, "joined-player-not-on-seat", fmt.Sprintf("join %s succeeded on seat %d but the seat holds %v", tok, seat, got)
+			return "joined-player-not-on-seat", fmt.Sprintf("join %s succeeded on seat %d but the seat holds %v", tok, seat, got)
 		}
 	}
 	// join on any seat may report "none available" only when that is true: without a Leave in the
 	// harness seats only fill up, so a seat still empty and not reserved at the end was free all along
 	hasLeave := false
-	for _, ops := range h.Threads {
+	for _, ops := range threads {
 		for _, op := range ops {
 			if op.Kind == "Leave" {
 				hasLeave = true
@@ -167,17 +199,17 @@ func (h *Harness) runOnce(ch *vrt.Chooser) (outcome, sig, msg string) {
 		if free >= 0 {
 			for ti := range results {
 				for oi, r := range results[ti] {
-					if op := h.Threads[ti][oi]; op.Kind == "Join" && op.K == -1 && !r.OK {
-						return outcome, "join-any-refused-with-free-seat", fmt.Sprintf("join t%d.%d on any seat was refused (%s) although seat %d is empty and not reserved", ti, oi, r.Err, free)
+					if op := threads[ti][oi]; op.Kind == "Join" && op.K == -1 && !r.OK {
+						return "join-any-refused-with-free-seat", fmt.Sprintf("join t%d.%d on any seat was refused (%s) although seat %d is empty and not reserved", tiBase+ti, oi, r.Err, free)
 					}
 				}
 			}
 		}
 	}
 	if got := m.GetPlayerCount(); got != initOcc+joins-leaves {
-		return outcome, "player-count", fmt.Sprintf("%d seated players, expected %d + %d joins - %d leaves", got, initOcc, joins, leaves)
+		return "player-count", fmt.Sprintf("%d seated players, expected %d + %d joins - %d leaves", got, initOcc, joins, leaves)
 	}
-	return outcome, "", ""
+	return "", ""
 }
 
 // ChildResult is what a per-harness child process reports on stdout.
